@@ -60,6 +60,10 @@ CHECKS = {
             'configured instances and run-time mutations of one instance); override values, configured overrides and mutations are symbolic; the '
             'description and validation behaviour of every other class/instance must equal the reference. The property quantifies over programs; '
             'only values inside the catalogue programs are solver-quantified', '5/C09'),
+    'C11': ('model_checking', 'a real SecopClient without sockets whose transmit/receive loop bodies run one iteration at a time in an order chosen by '
+            'symbolic selectors (request mix with equal keys and unknown actions, matching / error / unrelated / unknown replies, caller time-outs, '
+            'final disconnect or shutdown) against an independent model of the pending-request table; pre-emption inside an iteration and real thread '
+            'shutdown are not claimed', '5/C11'),
 }
 NOT_YET = 'check not built yet in this round (planned per DESIGN.md section 5); not claimed until its harness runs clean'
 NOT_APPLICABLE = {}
